@@ -50,6 +50,29 @@ func extractSendInput(repo string, f *Facts) {
 		return
 	}
 	var order []string
+	// calls that sit in the BODY of an if statement are conditional (the init / condition of `if err := c.flush(ctx); err != nil`
+	// is not)
+	conditional := map[*ast.CallExpr]bool{}
+	ast.Inspect(loop.Body, func(n ast.Node) bool {
+		if is, ok := n.(*ast.IfStmt); ok {
+			mark := func(b ast.Node) {
+				if b == nil {
+					return
+				}
+				ast.Inspect(b, func(m ast.Node) bool {
+					if c, ok := m.(*ast.CallExpr); ok {
+						conditional[c] = true
+					}
+					return true
+				})
+			}
+			mark(is.Body)
+			if is.Else != nil {
+				mark(is.Else)
+			}
+		}
+		return true
+	})
 	ast.Inspect(loop.Body, func(n ast.Node) bool {
 		c, ok := n.(*ast.CallExpr)
 		if !ok {
@@ -58,7 +81,11 @@ func extractSendInput(repo string, f *Facts) {
 		switch fn := c.Fun.(type) {
 		case *ast.SelectorExpr:
 			if id, ok := fn.X.(*ast.Ident); ok && id.Name == recv && (fn.Sel.Name == "encodeBlock" || fn.Sel.Name == "flush") {
-				order = append(order, fn.Sel.Name)
+				name := fn.Sel.Name
+				if conditional[c] {
+					name += "-conditional"
+				}
+				order = append(order, name)
 			}
 		case *ast.Ident:
 			if fn.Name == cb {
@@ -72,4 +99,54 @@ func extractSendInput(repo string, f *Facts) {
 		q = append(q, leanStr(o))
 	}
 	f.raw("\n/-- effects inside the loop of sendInput, in source order -/\ndef sendInputLoop : List String := [%s]\n", strings.Join(q, ", "))
+}
+
+// Where the output of the compressor goes in (*Client).encodeBlock: compress.Writer reuses its Data slice on every call,
+// so the frame must be COPIED into the output buffer before the next block is compressed; handing the slice itself to the
+// vectored writer would let the next Compress overwrite a frame that is still queued.
+func init() { steps = append(steps, extractEncodeBlock) }
+
+func extractEncodeBlock(repo string, f *Facts) {
+	p, err := load(repo, func(n string) bool { return n != "verif_gate.go" })
+	if err != nil {
+		f.bad("encodeBlock: cannot load package ch: %v", err)
+		return
+	}
+	fd := p.funcDecl("Client", "encodeBlock")
+	if fd == nil || fd.Body == nil {
+		f.bad("encodeBlock: (*Client).encodeBlock not found")
+		return
+	}
+	var uses []string
+	var stack []ast.Node
+	ast.Inspect(fd.Body, func(n ast.Node) bool {
+		if n == nil {
+			stack = stack[:len(stack)-1]
+			return true
+		}
+		stack = append(stack, n)
+		se, ok := n.(*ast.SelectorExpr)
+		if !ok || se.Sel.Name != "Data" {
+			return true
+		}
+		in, ok := se.X.(*ast.SelectorExpr)
+		if !ok || in.Sel.Name != "compressor" {
+			return true
+		}
+		// the innermost enclosing statement
+		for i := len(stack) - 1; i >= 0; i-- {
+			if st, ok := stack[i].(ast.Stmt); ok {
+				if _, isBlock := st.(*ast.BlockStmt); !isBlock {
+					uses = append(uses, p.src(st))
+					break
+				}
+			}
+		}
+		return true
+	})
+	var q []string
+	for _, u := range uses {
+		q = append(q, leanStr(u))
+	}
+	f.raw("\n/-- every statement of encodeBlock that mentions the compressor's output slice -/\ndef encodeBlockCompressorUses : List String := [%s]\n", strings.Join(q, ", "))
 }
